@@ -21,7 +21,7 @@ PROPERTY = "C09"
 LEVEL = "exploration"
 RULE = (
     "cases = (store kind, n points, batch size b<=n, PRNG key, number of calls); small scopes "
-    "n<=6 (quick) / n<=8 (thorough) enumerated exhaustively for the 7 store kinds (ODE times, "
+    "n<=6 (quick) / n<=10 (thorough) enumerated exhaustively for the 7 store kinds (ODE times, "
     "stationary interior 1-D/2-D, 2-D border facets, space-time times, observation rows, parameter "
     "samples), history length 3*ceil(n/b)+2 calls; plus Hypothesis rule-based state machines "
     "interleaving inside_batch/border_batch/temporal_batch/get_batch on larger stores. "
@@ -247,7 +247,7 @@ KINDS = ["ode_times", "statio1_inside", "statio2_inside", "statio2_border", "non
 
 
 def enum_small(tier):
-    nmax = 6 if tier == "quick" else 8
+    nmax = 6 if tier == "quick" else 10
     keys = [0, 7] if tier == "quick" else [0, 7, 123]
     for kind in KINDS:
         for n in range(1, nmax + 1):
@@ -447,10 +447,10 @@ def subchecks():
                  shards={"quick": 7, "thorough": 16},
                  doc="every (kind, n<=6|8, b<=n, key) with 3*ceil(n/b)+2 get_batch calls"),
         SubCheck(name="epochs_large_random", mode="given", strategy=strat_large, run_case=run_history,
-                 counts={"quick": 60, "thorough": 2000}, shards={"quick": 2, "thorough": 16},
+                 counts={"quick": 60, "thorough": 8000}, shards={"quick": 2, "thorough": 16},
                  doc="random n<=60 (divisor batch sizes over-sampled), 2-3 epochs"),
         SubCheck(name="nonstatio_interleaved_machine", mode="machine", machine=machine_factory,
-                 run_case=run_machine_case, counts={"quick": 40, "thorough": 1600},
+                 run_case=run_machine_case, counts={"quick": 40, "thorough": 6400},
                  shards={"quick": 2, "thorough": 16}, steps={"quick": 40, "thorough": 60},
                  doc="rule-based machine: inside_batch/border_batch/temporal_batch/get_batch interleaved on one "
                      "space-time generator (3 stores sharing one key)"),
